@@ -232,6 +232,9 @@ class DateTime(datetime.datetime, Date):
             microsecond = self.microsecond
         if tz is None:
             tz = self.tz
+            if tz is None and self.tzinfo is not None:
+                # The tzinfo is not a pendulum timezone: keep its zone
+                tz = pendulum._safe_timezone(self.tzinfo, dt=self)
 
         return self.__class__.create(
             year, month, day, hour, minute, second, microsecond, tz=tz, fold=self.fold
@@ -584,6 +587,11 @@ class DateTime(datetime.datetime, Date):
         """
         units_of_variable_length = any([years, months, weeks, days])
 
+        tz = self.tz
+        if tz is None and self.tzinfo is not None:
+            # The tzinfo is not a pendulum timezone: keep its zone
+            tz = pendulum._safe_timezone(self.tzinfo, dt=self)
+
         current_dt = datetime.datetime(
             self.year,
             self.month,
@@ -610,7 +618,7 @@ class DateTime(datetime.datetime, Date):
             microseconds=microseconds,
         )
 
-        if units_of_variable_length or self.tz is None:
+        if units_of_variable_length or tz is None:
             return self.__class__.create(
                 dt.year,
                 dt.month,
@@ -619,7 +627,7 @@ class DateTime(datetime.datetime, Date):
                 dt.minute,
                 dt.second,
                 dt.microsecond,
-                tz=self.tz,
+                tz=tz,
             )
 
         dt = datetime.datetime(
@@ -633,7 +641,7 @@ class DateTime(datetime.datetime, Date):
             tzinfo=UTC,
         )
 
-        dt = self.tz.convert(dt)
+        dt = tz.convert(dt)
 
         return self.__class__(
             dt.year,
@@ -643,7 +651,7 @@ class DateTime(datetime.datetime, Date):
             dt.minute,
             dt.second,
             dt.microsecond,
-            tzinfo=self.tz,
+            tzinfo=tz,
             fold=dt.fold,
         )
 
